@@ -1,8 +1,6 @@
 package isobmff
 
 import (
-	"fmt"
-
 	"github.com/evanoberholster/imagemeta/exif2/ifds"
 	"github.com/evanoberholster/imagemeta/imagetype"
 	"github.com/evanoberholster/imagemeta/meta"
@@ -11,11 +9,14 @@ import (
 )
 
 func (r *Reader) ReadMetadata() (err error) {
+	defer func() {
+		if state := recover(); state != nil {
+			err = state.(error)
+		}
+	}()
+
 	b, err := r.readBox()
 	if err != nil {
-		buf, err := r.br.Peek(128)
-		fmt.Println(buf, err, len(buf))
-		fmt.Println(string(buf))
 		return errors.Wrapf(err, "ReadMetadata")
 	}
 	switch b.boxType {
@@ -33,6 +34,7 @@ func (r *Reader) ReadMetadata() (err error) {
 		if logLevelInfo() {
 			logInfo().Object("box", b).Send()
 		}
+		err = b.close()
 	}
 	if err != nil && logLevelError() {
 		logError().Object("box", b).Err(err).Send()
@@ -56,7 +58,7 @@ func (r *Reader) readMdat(b *box) (err error) {
 	}
 	header, err := readExifHeader(&inner, ifds.IFD0, imagetype.ImageHEIF)
 	if err != nil {
-		panic(err)
+		return err
 	}
 
 	if r.ExifReader != nil {
